@@ -11,6 +11,7 @@ import io
 import os
 import sys
 import random
+import re
 import contextlib
 
 import oracle
@@ -480,7 +481,20 @@ def gen_cases(rng, tier, boost):
             elif form < 0.8:
                 text = "R%s/%s/%s" % (reps, interval, start)
             else:
-                text = "R%s/%s/%s" % (reps, start, point_text(rng, m, style="ext"))
+                # start/second-point: keep the two points within two centuries of each other - the cost of
+                # iterating grows with the days spanned (C09's finding F10), and 15 steps of 10000 years each
+                # are minutes of stepping, not a property of the command line
+                def _year(txt):
+                    mt = re.match(r"[+-]?[0-9]{4}", txt)
+                    return int(mt.group(0)) if mt else 0
+                second = point_text(rng, m, style="ext")
+                for _ in range(30):
+                    if abs(_year(second) - _year(start)) <= 200:
+                        break
+                    second = point_text(rng, m, style="ext")
+                else:
+                    second = start
+                text = "R%s/%s/%s" % (reps, start, second)
             yield Case([text], max_results=rng.choice([None, None, 1, 2, 3, 15]),
                        print_format=rng.choice([None, None, "CCYY-MM-DD", "%Y%m%d"]), **common)
         elif r < 0.95:
